@@ -1344,6 +1344,7 @@ class ManifestRecursiveLoader:
                 self.updated_manifests.add(mpath)
 
         # check for removed files
+        unlinked_manifests = set()
         for relpath, me in entry_dict.items():
             mpath, fe = me
             if fe.tag == 'IGNORE':
@@ -1351,6 +1352,15 @@ class ManifestRecursiveLoader:
 
             self.loaded_manifests[mpath].entries.remove(fe)
             self.updated_manifests.add(mpath)
+            if fe.tag == 'MANIFEST':
+                unlinked_manifests.add(relpath)
+
+        # a Manifest whose MANIFEST entry has just been removed (it lies
+        # in an ignored or hidden directory) is no longer part
+        # of the tree, so do not attempt to save it
+        for mpath in unlinked_manifests:
+            self.updated_manifests.discard(mpath)
+            self.loaded_manifests.pop(mpath, None)
 
     def create_manifest(self, path):
         """
